@@ -63,12 +63,41 @@ class Prop:
         return []
 
 
+def run_tlapm(job):
+    """Check a TLAPS proof module (spec/proofs/*.tla) in a scratch copy; every obligation must be proved."""
+    import re
+    import shutil
+    import subprocess
+    import tempfile
+    t0 = time.time()
+    d = tempfile.mkdtemp(prefix="vh-tlapm-")
+    try:
+        src = os.path.join(core.SPEC, "proofs", job["module"])
+        shutil.copy(src, d)
+        try:
+            p = subprocess.run(["tlapm", job["module"]], cwd=d, stdout=subprocess.PIPE, stderr=subprocess.STDOUT, timeout=job.get("timeout", 900))
+        except (OSError, subprocess.TimeoutExpired) as ex:
+            raise Machinery("tlapm %s: %s" % (job["module"], ex))
+        txt = p.stdout.decode(errors="replace")
+        m = re.search(r"All (\d+) obligations? proved", txt)
+        if p.returncode != 0 or not m:
+            raise Machinery("tlapm %s: proof not accepted: %s" % (job["module"], txt.strip().splitlines()[-3:]))
+        return {"module": "proofs/" + job["module"], "cfg": "-", "expect": "hold", "states": 0, "transitions": 0, "depth": 0,
+                "violated": "", "wall_s": round(time.time() - t0, 1), "cmd": "tlapm " + job["module"],
+                "what": job.get("what", "") + " (%s proof obligations, all proved)" % m.group(1)}
+    finally:
+        shutil.rmtree(d, ignore_errors=True)
+
+
 def run_mc(prop, tier):
     out = []
     if os.environ.get("VERIF_SKIP_MC") and os.environ.get("VERIF_NO_EVIDENCE"):
         return out        # development aid (mutation analysis): conformance only, writes no evidence
     for job in prop.mc(tier):
         if job.get("tier") == "thorough" and tier != "thorough":
+            continue
+        if job.get("tool") == "tlapm":        # an unbounded proof checked by the TLA+ proof system
+            out.append(run_tlapm(job))
             continue
         r = core.run_tlc(job["module"], job["cfg"], workers=job.get("workers", core.NCPU),
                          simulate=job.get("simulate"), depth=job.get("depth"),
